@@ -26,7 +26,9 @@ RULE = ("(A) generated templates (single expression, several outputs, surroundin
         "not a literal) x {sync env render, async env render, async env render_async, sync env render_async}; "
         "(B) node-list templates with every arrangement of up to 4 nodes from {text, literal-looking text, constant, "
         "string constant, variable}; plus a fixed list of texts that are not literals for non-syntactic reasons "
-        "(unhashable key, deep nesting). distinct = (template, values, entry point); non-trivial = more than one "
+        "(unhashable key, deep nesting); every render that returned a mutable literal value is followed by an "
+        "in-place change of that value and two more renders (same template; another template producing the same text) "
+        "that must give a fresh, equal value. distinct = (template, values, entry point); non-trivial = more than one "
         "output node, or a single non-literal object.")
 
 
@@ -67,6 +69,32 @@ def same(a, b):
         return repr(a) == repr(b)
     except Exception:  # noqa
         return a is b
+
+
+def mutate(v, depth=0):
+    """the caller owns what render returned: change it in place (and the first mutable value nested in it)"""
+    done = False
+    if isinstance(v, list):
+        for x in v:
+            if depth < 3 and mutate(x, depth + 1):
+                break
+        v.append(987654)
+        done = True
+    elif isinstance(v, dict):
+        for x in list(v.values()):
+            if depth < 3 and mutate(x, depth + 1):
+                break
+        v["__mutated__"] = 1
+        done = True
+    elif isinstance(v, set):
+        v.add(987654)
+        done = True
+    elif isinstance(v, tuple):
+        for x in v:
+            if depth < 3 and mutate(x, depth + 1):
+                done = True
+                break
+    return done
 
 
 def enc_pieces(pieces):
@@ -257,6 +285,25 @@ def run(ctx):
             ctx.model_mismatch("K native_render", case, show(em), show(got), None)
         else:
             ctx.validated()
+            # ---- repeatability: the value of a literal text belongs to the caller; after it was changed in
+            #      place a second render (of this template, and of another template with the same text) must
+            #      again give the value of the text, as a different object
+            if m.startswith("eval") and got[0] == "ok" and mutate(got[1]):
+                ctx.count("rerender_after_mutation")
+                text = "".join(chr(int(x)) for x in m.partition(" ")[2].split(".")) if m.partition(" ")[2] else ""
+                again = real_call((lambda: t.render(**vars_)) if entry == "R" else (lambda: asyncio.run(t.render_async(**vars_))))
+                other = real_call(lambda: ts.environment.from_string("{{ the_text }}").render(the_text=text))
+                for label2, r2 in (("same template rendered again", again), ("another template with the same text", other)):
+                    ctx.case(key=("again", src, case["vars"], is_async, entry, label2))
+                    fresh = interpret(s, objs)
+                    if not agrees(fresh, r2) or (r2[0] == "ok" and r2[1] is got[1]):
+                        ctx.reject(dict(case, step=label2, text=text),
+                                   f"after the caller changed the returned {type(got[1]).__name__} in place, {label2} gives "
+                                   f"{show(r2)}, the text denotes {show(fresh)}"
+                                   + (" (the very same object)" if r2[0] == "ok" and r2[1] is got[1] else ""),
+                                   "native render is not repeatable after the caller mutates a returned literal value")
+                    else:
+                        ctx.validated()
 
 
 def replay(ctx, data):
